@@ -222,8 +222,30 @@ def run(eng: Engine, ck: Check):
                 cand = expand_aliases(nd, ast.parse(bd_['cand'], mode='eval').body, depth=1)
                 if pat.match(cand, pat.compile_pattern(f'set(range(min({idx_name}), num(max({idx_name}) + 2)))')[0]) is not None:
                     free.append(n_)
-        facts['next index = min(set(range(min, max + 2)) - used): the smallest unused index'] = len(free) == 1
-        nxt = None
+        # second idiom for the same number: walk the sorted DISTINCT indices from the smallest and stop at the first gap
+        #   idx = sorted({..int(m.group(1))..});  nxt = idx[0] if idx else 1;  for i in idx: if i != nxt: break; nxt += 1
+        # (distinct matters: two directory entries with the same number -- `x (1).mp3`, `x (1).mp3.bak` -- must not look like a gap)
+        walk_nxt = None
+        if idx_name and not free:
+            idef = [n_ for n_ in walk_local(nd.node) if isinstance(n_, ast.Assign) and unparse(n_.targets[0]) == idx_name]
+            distinct = len(idef) == 1 and isinstance(idef[0].value, ast.Call) and call_name(idef[0].value) == 'sorted' and len(idef[0].value.args) == 1 and (
+                isinstance(idef[0].value.args[0], ast.SetComp) or (isinstance(idef[0].value.args[0], ast.Call) and call_name(idef[0].value.args[0]) in ('set', 'frozenset')))
+            for lp_ in [n_ for n_ in walk_local(nd.node) if isinstance(n_, ast.For) and unparse(n_.iter) == idx_name and isinstance(n_.target, ast.Name)]:
+                incs_ = [n_ for n_ in walk_local(lp_) if isinstance(n_, ast.AugAssign) and isinstance(n_.op, ast.Add) and const(n_.value) == 1 and isinstance(n_.target, ast.Name)]
+                brks_ = [n_ for n_ in walk_local(lp_) if isinstance(n_, ast.Break)]
+                if len(incs_) == 1 and len(brks_) == 1:
+                    cand_ = incs_[0].target.id
+                    eq_ = pat.compile_pattern(f'{lp_.target.id} == {cand_}')[0]
+                    inc_ok = any(pat.match(e_, eq_) is not None and pol_ for e_, pol_, _ in eng.guards_at(nd, incs_[0])) and len(eng.guards_at(nd, incs_[0])) == 1
+                    brk_ok = any(pat.match(e_, eq_) is not None and not pol_ for e_, pol_, _ in eng.guards_at(nd, brks_[0])) and len(eng.guards_at(nd, brks_[0])) == 1
+                    inits_ = [(conds, leaf) for n_ in walk_local(nd.node) if isinstance(n_, ast.Assign) and unparse(n_.targets[0]) == cand_ and lp_ not in list(ancestors(n_))
+                              for conds, leaf in cond_values(eng, nd, n_)]
+                    first_ok = any(unparse(leaf) == f'{idx_name}[0]' and any(unparse(e_) == idx_name and pol_ for e_, pol_ in conds) for conds, leaf in inits_)
+                    one_ok = any(const(leaf) == 1 and any(unparse(e_) == idx_name and not pol_ for e_, pol_ in conds) for conds, leaf in inits_)
+                    if distinct and inc_ok and brk_ok and first_ok and one_ok and len(inits_) == 2:
+                        walk_nxt = cand_
+        facts['next index = min(set(range(min, max + 2)) - used): the smallest unused index'] = len(free) == 1 or walk_nxt is not None
+        nxt = walk_nxt
         if free:
             stf = enclosing_stmt(free[0])
             nxt = unparse(stf.targets[0]) if isinstance(stf, ast.Assign) else None
